@@ -83,6 +83,11 @@ type objSpec struct {
 	// calendar-data cannot be produced for it: 200 and 5xx are both left open
 	// for that one property, everything else is owed as usual.
 	Unenc int `json:"unenc,omitempty"`
+	// Ctl != 0: a text value of the object holds a character XML 1.0 forbids
+	// (1: U+000B as Outlook-style exports put it into notes, 2: U+0001 and
+	// U+001F, 3: a byte sequence that is not UTF-8). How it is represented is
+	// the server's business; the answer must stay well-formed XML.
+	Ctl int `json:"ctl,omitempty"`
 }
 
 type davSpec struct {
@@ -99,6 +104,10 @@ type principalSpec struct {
 	CUP      string `json:"cup"`  // ServePrincipalOptions.CurrentUserPrincipalPath
 	CalHome  string `json:"cal_home,omitempty"`
 	CardHome string `json:"card_home,omitempty"`
+	// a second home set of the same kind (the options take a list): the
+	// property is still one property; which href(s) it holds is left open
+	CalHome2  string `json:"cal_home2,omitempty"`
+	CardHome2 string `json:"card_home2,omitempty"`
 }
 
 type world struct {
@@ -106,6 +115,11 @@ type world struct {
 	Files  []fileSpec     `json:"files,omitempty"`
 	Dav    *davSpec       `json:"dav,omitempty"`
 	Princ  *principalSpec `json:"princ,omitempty"`
+	// RootSpelling (fs-local): how the served directory is configured: "" (its
+	// absolute path), "dot" ("." with the directory as working directory, the
+	// default of cmd/webdav-server), "dot-slash", "relative" (its name, from
+	// its parent), "trailing-slash".
+	RootSpelling string `json:"root_spelling,omitempty"`
 }
 
 // --- reference model ------------------------------------------------------------
@@ -418,7 +432,27 @@ func (e *env) buildLocal(workDir string) error {
 		}
 	}
 	e.addFileResources(true)
-	e.h = &webdav.Handler{FileSystem: webdav.LocalFileSystem(root)}
+	spelled, chdir := root, ""
+	switch e.W.RootSpelling {
+	case "dot":
+		spelled, chdir = ".", root
+	case "dot-slash":
+		spelled, chdir = "./", root
+	case "relative":
+		spelled, chdir = filepath.Base(root), filepath.Dir(root)
+	case "trailing-slash":
+		spelled = root + "/"
+	}
+	if chdir != "" {
+		cwd, err := os.Getwd()
+		if err != nil || os.Chdir(chdir) != nil {
+			spelled = root
+		} else {
+			prev := e.cleanup
+			e.cleanup = func() { os.Chdir(cwd); prev() }
+		}
+	}
+	e.h = &webdav.Handler{FileSystem: webdav.LocalFileSystem(spelled)}
 	return nil
 }
 
@@ -453,6 +487,16 @@ func makeCalendar(uid string) *ical.Calendar {
 	ev.Props.SetText(ical.PropSummary, "s "+uid)
 	cal.Children = append(cal.Children, ev)
 	return cal
+}
+
+func ctlText(k int) string {
+	switch k {
+	case 1:
+		return "line one\x0bline two"
+	case 2:
+		return "a\x01b\x1fc"
+	}
+	return "not utf-8: \xff\xfe \xc3"
 }
 
 func makeCard(uid string) vcard.Card {
@@ -545,6 +589,9 @@ func (e *env) buildDav() error {
 		}
 		for i, o := range d.Objs {
 			co := caldav.CalendarObject{Path: o.Path, ETag: o.ETag, ContentLength: o.Len, Data: makeCalendar(fmt.Sprintf("uid-%d", i))}
+			if o.Ctl != 0 {
+				co.Data.Children[0].Props.SetText(ical.PropDescription, ctlText(o.Ctl))
+			}
 			switch o.Unenc {
 			case 1:
 				co.Data.Children[0].Props.Del(ical.PropDateTimeStamp)
@@ -564,6 +611,9 @@ func (e *env) buildDav() error {
 		}
 		for i, o := range d.Objs {
 			ao := carddav.AddressObject{Path: o.Path, ETag: o.ETag, ContentLength: o.Len, Card: makeCard(fmt.Sprintf("uid-%d", i))}
+			if o.Ctl != 0 {
+				ao.Card.SetValue(vcard.FieldNote, ctlText(o.Ctl))
+			}
 			if o.ModUnix != 0 {
 				ao.ModTime = time.Unix(o.ModUnix, 0)
 			}
@@ -585,11 +635,19 @@ func (e *env) buildPrincipal() error {
 		opts.HomeSets = append(opts.HomeSets, caldav.NewCalendarHomeSet(p.CalHome))
 		opts.Capabilities = append(opts.Capabilities, caldav.CapabilityCalendar)
 		req[name(nsCal, "calendar-home-set")] = hrefIs(p.CalHome)
+		if p.CalHome2 != "" {
+			opts.HomeSets = append(opts.HomeSets, caldav.NewCalendarHomeSet(p.CalHome2))
+			req[name(nsCal, "calendar-home-set")] = nil
+		}
 	}
 	if p.CardHome != "" {
 		opts.HomeSets = append(opts.HomeSets, carddav.NewAddressBookHomeSet(p.CardHome))
 		opts.Capabilities = append(opts.Capabilities, carddav.CapabilityAddressBook)
 		req[name(nsCard, "addressbook-home-set")] = hrefIs(p.CardHome)
+		if p.CardHome2 != "" {
+			opts.HomeSets = append(opts.HomeSets, carddav.NewAddressBookHomeSet(p.CardHome2))
+			req[name(nsCard, "addressbook-home-set")] = nil
+		}
 	}
 	e.byPath[p.Path] = 0
 	e.res = append(e.res, &resource{Path: p.Path, Level: "principal", Parent: -1, Required: req})
